@@ -1,2 +1,8 @@
-import Blackbird
-#print axioms Blackbird.dictGet
+import Blackbird.Props.C09
+#print axioms Blackbird.C09_number_exact
+#print axioms Blackbird.C09_int_text_exact
+#print axioms Blackbird.C09_array_declaration_exact
+#print axioms Blackbird.C09_operation_exact
+#print axioms Blackbird.C09_options_exact
+#print axioms Blackbird.C09_serialised_program_loads_back
+#print axioms Blackbird.C09_serialiser_total
